@@ -37,6 +37,38 @@ theorem nonceBytes_inj (a b : Nat) (ha : a < NONCE_LIMIT) (hb : b < NONCE_LIMIT)
     (h : nonceBytes a = nonceBytes b) : a = b := by
   rw [← nonce_roundtrip a ha, ← nonce_roundtrip b hb, h]
 
+/-- incrementing the little-endian bytes in place (full carry) is packing the next number -/
+theorem incLe_leBytes (k n : Nat) : incLe (leBytes k n) = leBytes k (n + 1) := by
+  induction k generalizing n with
+  | zero => rfl
+  | succ k ih =>
+    simp only [leBytes, incLe]
+    by_cases h : n % 256 = 255
+    · have h1 : (n + 1) % 256 = 0 := by omega
+      have h2 : (n + 1) / 256 = n / 256 + 1 := by omega
+      rw [h, h1, h2, ih]
+      simp
+    · have h1 : (n + 1) % 256 = n % 256 + 1 := by omega
+      have h2 : (n + 1) / 256 = n / 256 := by omega
+      have hne : ¬ UInt8.ofNat (n % 256) = 255 := by
+        intro e
+        have := congrArg UInt8.toNat e
+        simp [UInt8.toNat_ofNat'] at this
+        omega
+      rw [if_neg hne, h1, h2]
+      congr 1
+      apply UInt8.toNat_inj.mp
+      simp [UInt8.toNat_ofNat', UInt8.toNat_add]
+
+theorem bumpNonce_nonceBytes (n : Nat) : bumpNonce (nonceBytes n) = nonceBytes (n + 1) := by
+  unfold bumpNonce nonceBytes
+  rw [List.take_left' (leBytes_length 4 0), List.drop_left' (leBytes_length 4 0), incLe_leBytes]
+
+theorem bumped_eq (n : Nat) : bumped n = nonceBytes n := by
+  induction n with
+  | zero => rfl
+  | succ n ih => rw [bumped, ih, bumpNonce_nonceBytes]
+
 theorem packLength_eq_le16 (n : Nat) (h : n < 65536) : packLength n = some (le16 n) := by
   simp only [packLength, h, if_true, leBytes, le16]
   congr 2
